@@ -34,6 +34,18 @@ One case = one *fault history* followed by HEAL and a QUIET PERIOD:
                   TAIL x raftMaxTimeout after everything below held for the first time (stability), or when the
                   period is used up.
 
+  bandwidth       history parameter `link_rate` = at most that many messages per directed link and step during the quiet
+                  period (FIFO, nothing lost, timely ticks; absent = everything is delivered each step).  Kind
+                  `slow_snapshot`: a voter / read-only node needs a snapshot of MANY chunks (hardly compressible state,
+                  logCompactionBatchSize 32..128, memory and dump-file mode) over such a link, so the transfer takes
+                  several election timeouts (measured: first to last chunk delivered; floor).  Random histories get
+                  link_rate 2..8 with p=0.2.  Variant `pending` (conf `dump_checker`): the public conf option
+                  `serializeChecker` keeps the leader's forced dump "in the making" for 40..64 ticks, the returning
+                  node gets nothing but `serialized: None` for longer than an election timeout (no rate limit there:
+                  the leader's send loop floods the link with thousands of those).
+  member option   `dynamicMembershipChange=True` in 30 % of all confs (no membership command is ever issued) and always in
+                  kind `snapshot_then_leader_down`: a voter catches up by snapshot, gets a few more entries alone, the
+                  leader (with 5 voters: one more) becomes unreachable for good; the snapshot node must win.
   even split      kind `even_split` (4 or 6 voters, observers on either half; also a phase inside random histories over
                   4 voters): the voters fall into two equal halves that cannot talk (silent or noticed) while
                   elections run - at start-up before anybody leads, or after the leader was lost - both halves tick
@@ -68,6 +80,8 @@ callbacks, `raftLastApplied`, the free state machine's list `obj.log`), evaluate
   convergence:no-single-leader                     not exactly one voter reports leader, some node's `_getLeader()` does
                                                    not name it, or the leader keeps changing (not the same one for TAIL
                                                    election timeouts)
+  convergence:terms-keep-growing                   during the last TAIL election timeouts of the quiet period the term of a
+                                                   connected node still rose: elections do not stop
   convergence:post-heal-command-not-acknowledged:<detail>
         command `post`  (submitted once the same single leader was named by everybody for STABLE election timeouts):
                         its callback must fire with SUCCESS.  detail = no-callback | error-<FAIL_REASON> |
@@ -293,6 +307,8 @@ class Hist(object):
         elif k == "submit":
             s.submit(e[1], e[2])
         elif k == "compact":
+            if self.p.get("dump_checker") and e[1] not in self.pend:
+                self.pend[e[1]] = {"n": 0, "calls": 0}     # with a checker every dump must be reported done by it
             s.compact(e[1])
         elif k == "pend":
             if self.p.get("dump_checker"):
@@ -1736,7 +1752,9 @@ def directed_params(rng):
                     "var": {"who": "voter", "which": k, "mode": modes[k % 4], "m": 24, "rnd_len": 64, "after": 1,
                             "pending": [40, 64, 48][k]},
                     "seed": rng.randrange(10 ** 6), "post": "leader", "early": "lagging", "post_k": k, "heal_all": True,
-                    "dumpfile": dumpfile, "down": "none", "link_rate": [None, 2, 4][k], "dump_checker": True})
+                    "dumpfile": dumpfile, "down": "none", "link_rate": None, "dump_checker": True})
+        # (no bounded bandwidth here: while its dump is pending the leader's send loop floods the link with thousands
+        #  of `serialized: None`; behind a rate limit the real chunks would queue up for minutes - not "timely")
     # the node that installed a snapshot must win the next election in a bare majority
     k = 0
     for nv in (3, 5):
@@ -1921,7 +1939,11 @@ def random_params(rng, n):
         if kind == "slow_snapshot":
             link_rate = rng.choice([1, 1, 2, 3])
         elif rng.random() < 0.2:
-            link_rate = rng.randrange(1, 9)             # bounded bandwidth in the quiet period of any history
+            # bounded bandwidth in the quiet period of any history.  Not 1: every success ack sets the leader's
+            # nextIndex back to the acked position, so with tiny batches and a long backlog it re-sends everything
+            # still in flight once per heartbeat; on a link that carries ONE message per step the queue then never
+            # drains (congestion, minutes of delay) - that is no longer "messages exchanged in time"
+            link_rate = rng.randrange(2, 9)
         out.append({"link_rate": link_rate,"kind": kind, "nv": nv, "no": no, "conf": conf, "var": var,
                     "seed": rng.randrange(10 ** 6), "post": rng.choice(["leader", "follower", "follower", "observer"]),
                     "early": rng.choice(["lagging", "lagging", "follower", "observer", "leader"]),
